@@ -15,7 +15,7 @@ func getProfile(name string, seed int64) *Profile {
 		p.Invalid = 0.05
 		// several collections whose names are prefixes of each other, some of them dropped on the way
 		p.Colls = 3
-		p.Names = []string{"a", "ab", "abc", "", "tod", "todos", "a b"}
+		p.PrefixNames = true
 	case "sort": // C08
 		p.SortHeavy = true
 		p.Ops = 40
@@ -76,6 +76,7 @@ func getProfile(name string, seed int64) *Profile {
 		p.Invalid = 0.45
 		p.W = weights(map[string]int{"Insert": 20, "InsertOne": 8, "Save": 8, "ReplaceById": 8, "UpdateById": 10, "Update": 6, "UpdateFunc": 6, "FindById": 10, "FindAll": 3, "Derived": 2})
 	case "catalog": // C13
+		p.PrefixNames = true
 		p.Colls = 5
 		p.MaxDocs = 5
 		p.Invalid = 0.5
